@@ -85,6 +85,7 @@ type Point struct {
 type Dev struct{ Pos, Alt int }
 
 type Sched struct {
+	counter uint64 // NextCounter
 	threads []*thread
 	toSched chan *thread
 	closed  map[uintptr]bool
@@ -156,6 +157,16 @@ func active() (*Sched, *thread) {
 
 // Active reports whether the caller runs inside a controlled execution.
 func Active() bool { s, _ := active(); return s != nil }
+
+// NextCounter numbers the calls of an execution (only one thread runs at a time, so the order is the schedule's).
+func NextCounter() uint64 {
+	s, _ := active()
+	if s == nil {
+		return 0
+	}
+	s.counter++
+	return s.counter
+}
 
 // Current returns the Sched of the calling thread (nil outside a run).
 func Current() *Sched {
